@@ -43,38 +43,52 @@ impl Subject for TracedSubject {
     }
 }
 
+macro_rules! make_subject {
+    ($cfg:expr, $runner:expr) => {{
+        let cfg: &Config = $cfg;
+        let opts = cli::Opts {
+            re_filter: None,
+            tags_filter: None,
+            parser: cli::Empty,
+            runner: spec::runner_cli(cfg),
+            writer: cli::Empty,
+            custom: cli::Empty,
+        };
+        cucumber::verif::capture_dispatch();
+        let c = Cucumber::<TW, HParser, (), _, SpyWriter, cli::Empty>::custom(
+            HParser(cfg.clone()),
+            $runner,
+            SpyWriter,
+        )
+        .with_cli(opts)
+        .init_tracing();
+        let dispatch =
+            cucumber::verif::take_dispatch().expect("hook H3 did not hand over the Dispatch");
+        let fut = async move {
+            let _ = c.run(()).await;
+        }
+        .boxed_local();
+        let b: Box<dyn Subject> = Box::new(TracedSubject { fut, dispatch });
+        b
+    }};
+}
+
 pub fn subject(cfg: &Config) -> Box<dyn Subject> {
-    assert!(cfg.before && cfg.after && !cfg.custom_which);
+    assert!(cfg.before == cfg.after && !cfg.custom_which);
     let mut base = Basic::<TW>::default();
     if let Some(c) = cfg.conc_builder {
         base = base.max_concurrent_scenarios(c);
     }
-    let runner = base
-        .steps(spec::collection())
-        .before(hs::before_hook as cucumber::runner::basic::BeforeHookFn<TW>)
-        .after(hs::after_hook as cucumber::runner::basic::AfterHookFn<TW>);
-    let opts = cli::Opts {
-        re_filter: None,
-        tags_filter: None,
-        parser: cli::Empty,
-        runner: spec::runner_cli(cfg),
-        writer: cli::Empty,
-        custom: cli::Empty,
-    };
-    cucumber::verif::capture_dispatch();
-    let c = Cucumber::<TW, HParser, (), _, SpyWriter, cli::Empty>::custom(
-        HParser(cfg.clone()),
-        runner,
-        SpyWriter,
-    )
-    .with_cli(opts)
-    .init_tracing();
-    let dispatch = cucumber::verif::take_dispatch().expect("hook H3 did not hand over the Dispatch");
-    let fut = async move {
-        let _ = c.run(()).await;
+    let base = base.steps(spec::collection());
+    if cfg.before {
+        make_subject!(
+            cfg,
+            base.before(hs::before_hook as cucumber::runner::basic::BeforeHookFn<TW>)
+                .after(hs::after_hook as cucumber::runner::basic::AfterHookFn<TW>)
+        )
+    } else {
+        make_subject!(cfg, base)
     }
-    .boxed_local();
-    Box::new(TracedSubject { fut, dispatch })
 }
 
 fn scen(tags: &[&str], steps: &[StepKind]) -> ScenSpec {
@@ -92,7 +106,14 @@ pub fn family(tier: Tier) -> Vec<Config> {
                     if retry == 0 && fault != "none" && fault != "step" {
                         continue;
                     }
-                    for gates in [GateMode::Steps, GateMode::All] {
+                    for (gates, hooks) in [
+                        (GateMode::Steps, true),
+                        (GateMode::All, true),
+                        (GateMode::Steps, false),
+                    ] {
+                        if !hooks && (fault == "before" || fault == "after") {
+                            continue;
+                        }
                         for conc in [Some(1usize), Some(2)] {
                             let mut cfg = Config::default();
                             let mut tags: Vec<&str> = vec![];
@@ -106,8 +127,8 @@ pub fn family(tier: Tier) -> Vec<Config> {
                                 })
                                 .collect();
                             cfg.items = (0..nsc).map(Item::Feat).collect();
-                            cfg.before = true;
-                            cfg.after = true;
+                            cfg.before = hooks;
+                            cfg.after = hooks;
                             cfg.conc_builder = Some(conc);
                             cfg.plan.gates = gates.clone();
                             cfg.plan.logs_before = lb;
@@ -115,15 +136,16 @@ pub fn family(tier: Tier) -> Vec<Config> {
                             cfg.gran = Gran::L0;
                             cfg.k_noprogress = 16;
                             let info = cfg.scen_infos()[0].clone();
+                            let off = usize::from(hooks);
                             let chain: Vec<Fault> = match fault {
                                 "none" => vec![Fault::None],
-                                "step" => vec![Fault::Call(2, Outcome::PanicString), Fault::None],
+                                "step" => vec![Fault::Call(1 + off, Outcome::PanicString), Fault::None],
                                 "before" => vec![Fault::Call(0, Outcome::PanicString), Fault::None],
                                 _ => vec![Fault::Call(3, Outcome::PanicString), Fault::None],
                             };
                             let chain = if retry == 0 { vec![chain[0]] } else { chain };
                             let Some((outcomes, worlds)) =
-                                crate::families::chain_plan(&info, true, true, &chain)
+                                crate::families::chain_plan(&info, hooks, hooks, &chain)
                             else {
                                 continue;
                             };
@@ -135,7 +157,8 @@ pub fn family(tier: Tier) -> Vec<Config> {
                             }
                             cfg.max_execs = if tier == Tier::Quick { 4_000 } else { 400_000 };
                             cfg.name = format!(
-                                "trace/n{nsc}|lb{lb}la{la}|r{retry}|{fault}|g{gates:?}|c{conc:?}"
+                                "trace/n{nsc}|lb{lb}la{la}|r{retry}|{fault}|g{gates:?}|c{conc:?}|hooks{}",
+                                u8::from(hooks)
                             );
                             out.push(cfg);
                         }
